@@ -9,6 +9,8 @@ CLAIMED = {
          "spec matchers with published pure verdict functions stand in for real matchers; the W-tcp top-level fallback (close) is observable only as absence of handlers, subroute fallbacks are observed directly; listener-wrapper fallback is covered by C13"),
  "C05": ("§6 C05", "Seeded simulation on the bubble clock (exact simulated time) of the matching phase over TCP and UDP with silent, trickling, flooding and stalling clients, timeouts 50ms..5s, sub-second start phases, nested subroute timeouts and empty route lists; timed oracle: not late, not early while undecided, bounded buffering, no handler after the deadline, deadline cleared for handlers and fallbacks.",
          "simulated clock and network; timers armed by the code under test fire 1us..3ms late (tape-chosen), as real timers do; UDP: only the first association of a client is judged"),
+ "C17": ("§6 C17", "Seeded simulation of the real throttle handler and golang.org/x/time/rate on the bubble clock with 1..16 concurrent connections sharing the total limiter; every read reaching a client socket is timestamped exactly and checked against burst + rate*T per connection and in total, first read not before latency, stream intact.",
+         "bound is measured from the first read attempt of the connection (resp. of any connection for the total limiter); 0.05 byte slack for float rounding in x/time/rate"),
 }
 NA = {
  "C07": "pure function of the ClientHello bytes (differential input testing against crypto/tls): no schedule, clock, fault or interleaving for a simulator to decide; its one schedule-dependent clause is exercised under C06",
@@ -16,7 +18,7 @@ NA = {
  "C15": "Caddyfile->JSON adaptation and JSON round trip are pure single-threaded functions of the configuration text",
  "C18": "FromBytes/ToBytes inverse laws are pure functions of byte strings",
 }
-PENDING = ["C03","C04","C06","C08","C09","C10","C11","C12","C13","C16","C17"]
+PENDING = ["C03","C04","C06","C08","C09","C10","C11","C12","C13","C16"]
 m = {
  "version": 1,
  "setup_cmd": "./check build",
